@@ -32,7 +32,10 @@ impl SortFormat {
                 let b_num: f64 = b
                     .parse()
                     .map_err(|_| anyhow!("\"{}\" is not a valid number", b))?;
-                Ok(a_num.total_cmp(&b_num))
+                // Compare as numbers (`0` equals `-0`); fall back to the total order only for NaN.
+                Ok(a_num
+                    .partial_cmp(&b_num)
+                    .unwrap_or_else(|| a_num.total_cmp(&b_num)))
             }
         }
     }
